@@ -16,7 +16,7 @@ import (
 
 func init() {
 	register(&Rule{
-		ID: "ND", Props: []string{"C05", "C16"}, Min: 3,
+		ID: "ND", Props: []string{"C05", "C16", "C13"}, Min: 3,
 		Doc: `nondeterministic-order taint: Go randomises map iteration. (a) A slice filled inside 'for … range <map>' (or returned by a function summarised as doing so:
 obiutils.Set.Members, maps.Keys, …) is map-ordered until it is passed to sort.*/slices.Sort*; a map-ordered slice must not reach an order-sensitive sink — the CSV column list
 (obiformats.CSVKeys), a strings.Join or a write to an output stream. (b) Inside a map-range loop, order-sensitive effects are forbidden: chaining edit workers (ChainWorkers),
@@ -288,7 +288,7 @@ func ndSliceSink(info *types.Info, call *ast.CallExpr) string {
 var ndScope = []string{"pkg/obiformats", "pkg/obiseq", "pkg/obiiter", "pkg/obitools/obiannotate", "pkg/obitools/obigrep", "pkg/obitools/obiconvert",
 	"pkg/obitools/obicsv", "pkg/obitools/obipairing", "pkg/obitools/obimultiplex", "pkg/obitools/obipcr", "pkg/obitools/obicount", "pkg/obitools/obisummary",
 	"pkg/obitools/obidistribute", "pkg/obingslibrary", "pkg/obiapat", "pkg/obitools/obidemerge", "pkg/obitools/obijoin", "pkg/obitools/obimicrosat", "pkg/obitools/obiscript", "pkg/obitools/obisplit",
-	"pkg/obitools/obitagpcr", "pkg/obitools/obicleandb"}
+	"pkg/obitools/obitagpcr", "pkg/obitools/obicleandb", "pkg/obitools/obiconsensus", "pkg/obitools/obiclean"}
 
 func runND(c *Ctx, s *Sink) {
 	nd := &ndSummary{c: c}
@@ -370,6 +370,67 @@ func runND(c *Ctx, s *Sink) {
 				})
 			}
 		}
+		// (e) records stored while ranging over a map-ordered slice (the members of a set, the keys of a map)
+		nE := 0
+		ast.Inspect(fd.Body, func(n ast.Node) bool {
+			rs, ok := n.(*ast.RangeStmt)
+			if !ok {
+				return true
+			}
+			x := ast.Unparen(rs.X)
+			tainted := false
+			if inner, ok := x.(*ast.CallExpr); ok && nd.callTainted(info, inner) {
+				tainted = true
+			}
+			if o := rootObj(info, x); o != nil && tv[o] != nil && tv[o].End() <= rs.Pos() {
+				if _, isID := x.(*ast.Ident); isID {
+					tainted = true
+				}
+			}
+			if !tainted {
+				return true
+			}
+			stores := false
+			ast.Inspect(rs.Body, func(m ast.Node) bool {
+				as, ok := m.(*ast.AssignStmt)
+				if !ok {
+					return true
+				}
+				for _, l := range as.Lhs {
+					var base ast.Expr = l
+					if ix, ok := ast.Unparen(l).(*ast.IndexExpr); ok {
+						base = ix.X
+					}
+					if t := info.TypeOf(base); t != nil && strings.HasSuffix(t.String(), "obiseq.BioSequenceSlice") {
+						// … a slice the function returns (what stays inside — the pack given to a consensus — has no order)
+						bo := rootObj(info, base)
+						ast.Inspect(fd.Body, func(q ast.Node) bool {
+							if r, ok := q.(*ast.ReturnStmt); ok && bo != nil {
+								for _, e := range r.Results {
+									e = ast.Unparen(e)
+									if u, ok := e.(*ast.UnaryExpr); ok {
+										e = u.X
+									}
+									if st, ok := e.(*ast.StarExpr); ok {
+										e = st.X
+									}
+									if rootObj(info, e) == bo {
+										stores = true
+									}
+								}
+							}
+							return true
+						})
+					}
+				}
+				return true
+			})
+			if stores {
+				nE++
+				s.Fail(nil, fmt.Sprintf("%s:maporder-records-loop#%d", fname, nE), rs.Pos(), "records are stored while ranging over a slice that is in map iteration order ("+types.ExprString(rs.X)+", never sorted): the records come out in an order that changes from run to run — obijoin with six partners sharing one key wrote them in 4 different orders in 8 runs, even with --max-cpu 1 --batch-size 1")
+			}
+			return true
+		})
 		// (b) order-sensitive effects inside map-range loops
 		nB := 0
 		ast.Inspect(fd.Body, func(n ast.Node) bool {
@@ -393,15 +454,55 @@ func runND(c *Ctx, s *Sink) {
 					bad = "attributes are renamed in map iteration order: overlapping renames (a→b, b→c) give run-dependent results"
 				case strings.HasPrefix(fn, "fmt.Fprint") || strings.HasPrefix(fn, "fmt.Print"):
 					bad = "output is printed in map iteration order"
+				case fn == modPath+"/pkg/obiiter.(IBioSequence).Push" && !ndIndexedByKey(info, call, rs):
+					bad = "the batches of records are handed to the output in map iteration order: the command writes the same records in an order that changes from run to run (obiconsensus: three different orders of its 782 records in four runs)"
 				default:
 					if sel, ok := call.Fun.(*ast.SelectorExpr); ok && sinkMethods[sel.Sel.Name] && sel.Sel.Name != "Close" && sel.Sel.Name != "Flush" {
 						if t, ok := info.Types[sel.X]; ok && (sinkTypes[sinkTypeName(t.Type)] || sinkTypeName(t.Type) == "bytes.Buffer" || sinkTypeName(t.Type) == "strings.Builder" || sinkTypeName(t.Type) == "encoding/csv.Writer") {
+							// a sink opened inside the loop belongs to one iteration (one file per key): its content has no order among the keys
+							if o := rootObj(info, sel.X); o != nil && o.Pos() > rs.Body.Pos() && o.Pos() < rs.Body.End() {
+								return true
+							}
 							bad = "text is written in map iteration order"
 						}
 					}
 				}
 				return true
 			})
+			// (f) obiclean: what is filed in the annotations of the records under a key that does not come from the key of
+			// the loop (the identifier of another record) is overwritten in map order when two iterations meet
+			if bad == "" && strings.HasSuffix(p.PkgPath, "/pkg/obitools/obiclean") {
+				rk := rootObj(info, rs.Key)
+				ast.Inspect(rs.Body, func(m ast.Node) bool {
+					as, ok := m.(*ast.AssignStmt)
+					if !ok || bad != "" {
+						return true
+					}
+					for _, l := range as.Lhs {
+						ix, ok := ast.Unparen(l).(*ast.IndexExpr)
+						if !ok {
+							continue
+						}
+						if _, isMap := info.TypeOf(ix.X).Underlying().(*types.Map); !isMap {
+							continue
+						}
+						if _, isCall := ast.Unparen(ix.X).(*ast.CallExpr); !isCall {
+							continue // a local table: only the maps reached through an accessor of a record are shared by the iterations
+						}
+						usesKey := false
+						ast.Inspect(ix.Index, func(q ast.Node) bool {
+							if id, ok := q.(*ast.Ident); ok && rk != nil && info.ObjectOf(id) == rk {
+								usesKey = true
+							}
+							return true
+						})
+						if !usesKey {
+							bad = "an annotation of a record is filed, inside a loop over a Go map, under a key that is not the key of the loop: when two iterations file under the same key (two fathers bearing the same identifier in two samples) the one that stays is the last visited, which changes from run to run — obiclean_mutation of s is (a)->(g)@10 in 13 % of the runs and (c)->(g)@10 in the others"
+						}
+					}
+					return true
+				})
+			}
 			if bad != "" {
 				s.Fail(nil, key, rs.Pos(), bad)
 			} else {
@@ -417,4 +518,19 @@ func fullNameShort(fn *types.Func, call *ast.CallExpr) string {
 		return rel(fullName(fn))
 	}
 	return types.ExprString(call.Fun)
+}
+
+
+// ndIndexedByKey: the receiver of the call is an element selected by the key of the map-range loop (one output per key:
+// the order in which different outputs each get their batch does not show).
+func ndIndexedByKey(info *types.Info, call *ast.CallExpr, rs *ast.RangeStmt) bool {
+	sel, ok := call.Fun.(*ast.SelectorExpr)
+	if !ok || rs.Key == nil {
+		return false
+	}
+	ix, ok := ast.Unparen(sel.X).(*ast.IndexExpr)
+	if !ok {
+		return false
+	}
+	return rootObj(info, ix.Index) != nil && rootObj(info, ix.Index) == rootObj(info, rs.Key)
 }
